@@ -79,6 +79,24 @@ def check(repo, tier):
                 if cplx:
                     run.add(Finding('C08', 'D4', where, cons, f'{scen}: the eigenvectors of a micro pencil whose {" and ".join(cplx)} is complex are replaced by their real parts '
                                     f'(the stored core is then not an eigenvector of the pencil and the returned eigenvalue not the Rayleigh quotient of the returned tensor)', f_, ln, {'scenario': scen}))
+            # option pass-through: every micro eigenproblem (both half sweeps) targets the caller's sigma -- the helper that solves it gets it, and the
+            # shift-invert solver is called with it
+            SIGMA = 1.5
+            for e in sc.events('call'):
+                if e['callee'].mod == EVP and 'sigma' in e['callee'].params and e['callee'].name != 'als':
+                    argd = dict(zip(e['callee'].params, e['args']))
+                    argd.update(e['kwargs'])
+                    good = argd.get('sigma', None) == SIGMA
+                    run.oblige('D3', (entry, scen, 'sigma', e['callee'].name), good)
+                    if not good:
+                        fn_ = repo.fn(entry)
+                        run.add(Finding('C08', 'D3', fn_.where, f'sigma -> {e["callee"].name}', f'{scen}: {e["callee"].qual} is called ' + ('without sigma (its default is used)' if 'sigma' not in argd else
+                                        f'with sigma={argd["sigma"]}') + f' instead of the caller\'s sigma={SIGMA}: that micro eigenproblem targets another part of the spectrum', fn_.file, fn_.node.lineno))
+            for e in sc.events('eig'):
+                if e.get('solver') == 'eigs' and e.get('sigma') != SIGMA:
+                    where, cons, f_, ln = l2rules.ev_where(repo, e, mods)
+                    run.oblige('D3', (where, cons, 'sigma'), False)
+                    run.add(Finding('C08', 'D3', where, cons, f'{scen}: the shift-invert solver is called with sigma={e.get("sigma")} instead of the caller\'s {SIGMA}', f_, ln))
             n_before = len(run.findings) if hasattr(run, 'findings') else None
             l2rules.stale_obligation(run, 'C08', 'D2', repo, sc, entry, scen, mods)
             if exc is not None:
